@@ -4,6 +4,7 @@
   `validate_ee_at`, and the ROA / ASPA coverage checks.
 -/
 import Rpki.Model.Der
+import Rpki.Model.Skip
 import Rpki.Model.Cert
 import Rpki.Gen.Consts
 namespace Rpki.SigObj
@@ -78,7 +79,7 @@ def parseAttr (strict : Bool) (p : Parsed) (body : Bytes) : Option Parsed :=
       else match takeSetOfTime r with
         | some t => some { p with st := some t }
         | none => none
-    else if !strict then some p     -- `skip_all`
+    else if !strict then (if CertDer.skipAll r.length r then some p else none)     -- `skip_all`: the rest must be well-formed values
     else none
 
 /-- the `while let Some(()) = cons.take_opt_sequence(..)` loop; the `[0]` wrapper must be used up -/
